@@ -194,7 +194,7 @@ pub fn check_c09(c: &DedupCase, acc: &mut Acc, record: bool) -> Verdict {
 }
 
 pub fn run_c09(cx: &Cx) -> PropResult {
-    let per_shard = cx.n(6_000, 250_000);
+    let per_shard = cx.n(50_000, 1_500_000);
     let acc = parallel(cx, &|shard, acc| {
         let strat = dedup_case_strategy();
         drive(tag_seed(derive_seed(cx.seed, cx.prop, shard as u64, 0), 0), &strat, per_shard, acc, &|c: &DedupCase| to_json(c), &mut |c, a, r| check_c09(c, a, r));
